@@ -2,6 +2,7 @@ package rules
 
 import (
 	"go/token"
+	"fmt"
 	"go/types"
 	"strings"
 
@@ -13,7 +14,7 @@ import (
 func init() {
 	register(&core.Spec{
 		ID: "C22",
-		Explanation: "Decides structural necessary conditions of C22: (CACHE-KEY) every evaluation of module source is dominated by the miss edge of a lookup in the interpreter's module table with the very key under which the module is then installed (so a second import finds it and no second evaluation happens); (INSTALL-PAIR) the namespace is installed before its code runs (circular imports terminate), the namespace returned to the importer is the installed one (all importers share it), and on every path where execution fails the entry is deleted again with the same key (a failed module is not remembered); (RELATIVE-BASE) a relative spec is resolved against the directory of the importing file when the importing code comes from a file and against the working directory otherwise. Path resolution details and plugin modules are not decided.",
+		Explanation: "Decides structural necessary conditions of C22: (CACHE-KEY) every evaluation of module source is dominated by the miss edge of a lookup in the interpreter's module table with the very key under which the module is then installed (so a second import finds it and no second evaluation happens); (INSTALL-PAIR) the namespace is installed before its code runs (circular imports terminate), the namespace returned to the importer is the installed one (all importers share it), and on every path where execution fails the entry is deleted again with the same key (a failed module is not remembered); (RELATIVE-BASE) a relative spec is resolved against the directory of the importing file when the importing code comes from a file and against the working directory otherwise, and the working directory is read when the import runs: no call path from the compiler reaches os.Getwd. Path resolution details and plugin modules are not decided.",
 		NotCovered:  "file-system path normalisation, plugin (.so) modules, concurrent imports (see C39)",
 		Rules:       []string{"CACHE-KEY", "INSTALL-PAIR", "RELATIVE-BASE", "KEY-IS-PATH: a module read from a file is looked up and installed under the path it is read from"},
 		Patterns:    []string{"./pkg/eval"},
@@ -26,11 +27,12 @@ func init() {
 			{Name: "lookup-by-spec-install-by-path", Rule: "CACHE-KEY", File: "pkg/eval/builtin_special.go", Old: "\tif ns, ok := fm.Evaler.getModule(path); ok {\n\t\treturn ns, nil\n\t}\n\t_, err := os.Stat(path + \".so\")", New: "\tif ns, ok := fm.Evaler.getModule(spec); ok {\n\t\treturn ns, nil\n\t}\n\t_, err := os.Stat(path + \".so\")", Fire: true, Quick: true},
 			{Name: "bundled-module-without-lookup", Rule: "CACHE-KEY", File: "pkg/eval/builtin_special.go", Old: "\tif ns, ok := fm.Evaler.getModule(spec); ok {\n\t\treturn ns, nil\n\t}\n\tif code, ok := fm.Evaler.BundledModules[spec]; ok {", New: "\tif code, ok := fm.Evaler.BundledModules[spec]; ok {", Edits: [][2]string{{"\treturn nil, NoSuchModule{spec}\n}\n", "\tif ns, ok := fm.Evaler.getModule(spec); ok {\n\t\treturn ns, nil\n\t}\n\treturn nil, NoSuchModule{spec}\n}\n"}}, Fire: true},
 			{Name: "relative-import-always-from-cwd", Rule: "RELATIVE-BASE", File: "pkg/eval/builtin_special.go", Old: "\t\tif fm.src.IsFile {\n\t\t\tdir = filepath.Dir(fm.src.Name)\n\t\t} else {", New: "\t\tif false {\n\t\t\tdir = filepath.Dir(fm.src.Name)\n\t\t} else {", Fire: true},
+			{Name: "cwd-read-while-compiling-use", Rule: "RELATIVE-BASE", File: "pkg/eval/builtin_special.go", Old: "func compileUse(cp *compiler, fn *parse.Form) effectOp {\n", New: "func compileUse(cp *compiler, fn *parse.Form) effectOp {\n\tif wd, err := os.Getwd(); err == nil && !cp.src.IsFile {\n\t\tcp.src.Name = wd + \"/\" + cp.src.Name\n\t}\n", Fire: true, Want: "compileUse"},
 		},
 	})
 	register(&core.Spec{
 		ID: "C16",
-		Explanation: "Decides structural necessary conditions of C16: (GATE) in every function that compiles and then runs code (Evaler.Eval, Frame.PrepareEval) the namespace preparation, the store to the interpreter's global namespace and the execution are dominated by the no-error edges of both parse.Parse and compile, so code with a static error never starts; (COMPILE-PURE) compile works on a clone of the static namespace it is given and touches its argument only to clone it, so a failed compilation leaves the namespace as it was; (CHECK-AGREE) every caller of compile (evaluation and the static check alike) passes the static view of the interpreter's builtin namespace and of the namespace the code would run in, and the static check compiles the tree that parse.Parse returned. That the two report the same set of errors for every program, and that compilation itself has no output side effects other than deprecation warnings, is not decided.",
+		Explanation: "Decides structural necessary conditions of C16: (GATE) in every function that compiles and then runs code (Evaler.Eval, Frame.PrepareEval) the namespace preparation, the store to the interpreter's global namespace and the execution are dominated by the no-error edges of both parse.Parse and compile, so code with a static error never starts; (COMPILE-PURE) compile works on a clone of the static namespace it is given and touches its argument only to clone it, so a failed compilation leaves the namespace as it was; (CHECK-AGREE) every caller of compile (evaluation and the static check alike) passes the static view of the interpreter's builtin namespace and of the namespace the code would run in, the static check compiles the tree that parse.Parse returned, and what it returns is a constant, a parameter or derived from the compilation it has just done (not an answer remembered from an earlier state of the namespaces). That the two report the same set of errors for every program, and that compilation itself has no output side effects other than deprecation warnings, is not decided.",
 		NotCovered:  "equality of the error sets for every program; side effects of deprecation warnings",
 		Rules:       []string{"GATE", "COMPILE-PURE", "CHECK-AGREE"},
 		Patterns:    []string{"./pkg/eval"},
@@ -42,6 +44,8 @@ func init() {
 			{Name: "exec-despite-parse-error", Rule: "GATE", File: "pkg/eval/frame.go", Old: "\ttree, err := parse.Parse(src, parse.Config{WarningWriter: fm.ErrorFile()})\n\tif err != nil {\n\t\treturn nil, nil, err\n\t}\n\tlocal := fm.local", New: "\ttree, _ := parse.Parse(src, parse.Config{WarningWriter: fm.ErrorFile()})\n\tlocal := fm.local", Fire: true},
 			{Name: "compile-mutates-callers-namespace", Rule: "COMPILE-PURE", File: "pkg/eval/compiler.go", Old: "\tg = g.clone()\n", New: "", Fire: true, Quick: true},
 			{Name: "check-compiles-against-empty-builtin", Rule: "CHECK-AGREE", File: "pkg/eval/eval.go", Old: "\t_, autofixes, compileErr := compile(b.static(), g.static(), modules, tree, w)", New: "\t_, autofixes, compileErr := compile(new(Ns).static(), g.static(), modules, tree, w)\n\t_ = b", Fire: true},
+			{Name: "check-result-memoised-by-code", Rule: "CHECK-AGREE", File: "pkg/eval/eval.go", Old: "\t_, autofixes, compileErr := compile(b.static(), g.static(), modules, tree, w)\n\treturn autofixes, compileErr\n", New: "\tif r, ok := checkMemo[tree.Source.Code]; ok {\n\t\treturn r.fixes, r.err\n\t}\n\t_, autofixes, compileErr := compile(b.static(), g.static(), modules, tree, w)\n\tcheckMemo[tree.Source.Code] = checkMemoEntry{autofixes, compileErr}\n\treturn autofixes, compileErr\n}\n\ntype checkMemoEntry struct {\n\tfixes []string\n\terr   error\n}\n\nvar checkMemo = map[string]checkMemoEntry{}\n\nfunc unusedCheckMemo() {\n", Fire: true, Want: "CheckTree"},
+			{Name: "benign-check-empty-tree-fast-path", Rule: "CHECK-AGREE", File: "pkg/eval/eval.go", Old: "\t_, autofixes, compileErr := compile(b.static(), g.static(), modules, tree, w)\n\treturn autofixes, compileErr\n", New: "\tif tree.Root == nil {\n\t\treturn nil, nil\n\t}\n\t_, autofixes, compileErr := compile(b.static(), g.static(), modules, tree, w)\n\treturn autofixes, compileErr\n", Fire: false},
 			{Name: "autofix-also-declares-the-module", Rule: "CHECK-AGREE", File: "pkg/eval/compiler.go", Old: "\t\tcp.autofixes = append(cp.autofixes, \"use \"+mod)\n", New: "\t\tcp.autofixes = append(cp.autofixes, \"use \"+mod)\n\t\tcp.thisScope().add(mod + NsSuffix)\n", Fire: true, Want: "autofixUnresolvedVar"},
 			{Name: "benign-autofix-deduplicated", Rule: "CHECK-AGREE", File: "pkg/eval/compiler.go", Old: "\t\tcp.autofixes = append(cp.autofixes, \"use \"+mod)\n", New: "\t\tif fix := \"use \" + mod; !sliceContains(cp.autofixes, fix) {\n\t\t\tcp.autofixes = append(cp.autofixes, fix)\n\t\t}\n", Fire: false},
 			{Name: "benign-error-tests-swapped-order", Rule: "GATE", File: "pkg/eval/frame.go", Old: "\tif err != nil {\n\t\treturn nil, nil, err\n\t}\n\tnewLocal, exec := op.prepare(newFm)", New: "\tif err == nil {\n\t\tnewLocal, exec := op.prepare(newFm)\n\t\treturn newLocal, exec, nil\n\t}\n\treturn nil, nil, err\n}\n\nfunc unusedPrepare(op nsOp, newFm *Frame) (*Ns, func() Exception, error) {\n\tnewLocal, exec := op.prepare(newFm)", Fire: false},
@@ -344,6 +348,61 @@ func runC22(p *core.Program, r *core.Report) {
 			}
 			return false
 		}
+		// the working directory is consulted when the import runs, not when the
+		// code is compiled: nothing the compiler calls reaches os.Getwd
+		{
+			var roots []*ssa.Function
+			for _, fn := range p.FnsInPkg(pkgEval) {
+				if fn.Parent() != nil {
+					continue
+				}
+				isCompiler := func(t types.Type) bool {
+					ptr, ok := t.(*types.Pointer)
+					return ok && core.IsNamed(ptr.Elem(), pkgEval, "compiler")
+				}
+				if recv := fn.Signature.Recv(); recv != nil && isCompiler(recv.Type()) {
+					roots = append(roots, fn)
+				} else if fn.Signature.Params().Len() > 0 && isCompiler(fn.Signature.Params().At(0).Type()) {
+					roots = append(roots, fn)
+				}
+			}
+			if r.Anchor("RELATIVE-BASE", "functions of the compiler (receiver or first parameter *compiler)", len(roots) >= 10) {
+				seen := map[*ssa.Function]bool{}
+				var hit ssa.Instruction
+				var via *ssa.Function
+				var visit func(f, root *ssa.Function)
+				visit = func(f, root *ssa.Function) {
+					if f == nil || seen[f] || f.Blocks == nil || core.PkgPathOf(f) != pkgEval {
+						return
+					}
+					seen[f] = true
+					core.Instrs(f, func(ins ssa.Instruction) {
+						c, ok := ins.(ssa.CallInstruction)
+						if !ok {
+							return
+						}
+						if callee := c.Common().StaticCallee(); callee != nil {
+							if callee.String() == "os.Getwd" && hit == nil {
+								hit, via = ins, root
+							}
+							visit(callee, root)
+						}
+						if cl, ok := closureOf(c.Common().Value); ok {
+							visit(cl, root)
+						}
+					})
+				}
+				for _, f := range roots {
+					visit(f, f)
+				}
+				construct := "the compiler does not read the working directory"
+				if hit == nil {
+					r.OK("RELATIVE-BASE", construct, p.Pos(use.Pos()), fmt.Sprintf("no call path from %d compiler functions reaches os.Getwd", len(roots)))
+				} else {
+					r.Bad("RELATIVE-BASE", construct, p.InsPos(hit), "os.Getwd is reached from "+core.FnKey(via)+" while the code is being compiled: the directory a relative import resolves against is then fixed before the code runs, so `cd sub; use ./m` in one chunk (or a function defined before a cd) imports from the old directory")
+				}
+			}
+		}
 		construct := "eval.use relative spec resolved against the importing file or the working directory"
 		if dirCall != nil && wdCall != nil && dominatedByCondEdge(baseFn, isFileCond, true, dirCall.Block()) && dominatedByCondEdge(baseFn, isFileCond, false, wdCall.Block()) {
 			// Dir's argument must be the source name
@@ -629,6 +688,95 @@ func runC16(p *core.Program, r *core.Report) {
 				r.OK("CHECK-AGREE", fk+" compiles against the static view of a real namespace", p.InsPos(ins), "second argument is ns.static()")
 			} else {
 				r.Bad("CHECK-AGREE", fk+" compiles against the static view of a real namespace", p.InsPos(ins), "compile is not given ns.static() of the namespace the code runs in")
+			}
+			// a function that compiles without running the result is a static
+			// check: what it reports comes from this compilation, not from
+			// something remembered from an earlier one (the namespaces may
+			// have changed in between; nothing versions them)
+			opUsed := false
+			for _, ref := range *c.Referrers() {
+				if ex, ok := ref.(*ssa.Extract); ok && ex.Index == 0 && ex.Referrers() != nil && len(*ex.Referrers()) > 0 {
+					opUsed = true
+				}
+			}
+			if opUsed {
+				return
+			}
+			construct := fk + " reports the result of the compilation it has just done"
+			var stale ssa.Instruction
+			staleWhat := ""
+			core.Instrs(fn, func(i2 ssa.Instruction) {
+				ret, ok := i2.(*ssa.Return)
+				if !ok {
+					return
+				}
+				seen := map[ssa.Value]bool{}
+				var walk func(v ssa.Value)
+				walk = func(v ssa.Value) {
+					if v == nil || seen[v] || stale != nil {
+						return
+					}
+					seen[v] = true
+					switch x := v.(type) {
+					case *ssa.Const, *ssa.Parameter, *ssa.Function, *ssa.Alloc, *ssa.MakeSlice, *ssa.MakeMap:
+					case *ssa.Extract:
+						if x.Tuple == ssa.Value(c) {
+							return
+						}
+						walk(x.Tuple)
+					case *ssa.Phi:
+						for _, e := range x.Edges {
+							walk(e)
+						}
+					case *ssa.Call:
+						if x == c {
+							return
+						}
+						for _, a := range x.Call.Args {
+							walk(a)
+						}
+					case *ssa.MakeInterface:
+						walk(x.X)
+					case *ssa.ChangeInterface:
+						walk(x.X)
+					case *ssa.ChangeType:
+						walk(x.X)
+					case *ssa.Convert:
+						walk(x.X)
+					case *ssa.Slice:
+						walk(x.X)
+					case *ssa.BinOp:
+						walk(x.X)
+						walk(x.Y)
+					case *ssa.Lookup:
+						if _, isMap := x.X.Type().Underlying().(*types.Map); isMap {
+							stale, staleWhat = x, "a map lookup"
+							return
+						}
+						walk(x.X)
+					case *ssa.UnOp:
+						if x.Op == token.MUL {
+							if _, isLocal := x.X.(*ssa.Alloc); isLocal {
+								return
+							}
+							stale, staleWhat = x, "a value loaded from "+addrDesc(x.X)
+							return
+						}
+						walk(x.X)
+					case *ssa.Field:
+						walk(x.X)
+					case *ssa.TypeAssert:
+						walk(x.X)
+					}
+				}
+				for _, res := range ret.Results {
+					walk(res)
+				}
+			})
+			if stale == nil {
+				r.OK("CHECK-AGREE", construct, p.InsPos(ins), "every returned value is a constant, a parameter or derived from this call of compile")
+			} else {
+				r.Bad("CHECK-AGREE", construct, p.InsPos(stale), "the static check returns "+staleWhat+" instead of the outcome of compiling against the namespaces as they are now: after a variable is deleted or a module loaded, the remembered answer disagrees with what evaluation reports")
 			}
 		})
 	}
